@@ -138,10 +138,10 @@ CHECKS['C03'] = dict(_RULES, title='Every command line that obeys the declared r
 CHECKS['C05'] = dict(title='A key designates exactly one argument, independent of definition order', engine='xenum',
     harness=['harness/c05_keys.cpp'], flags='asan', lib=True, level='model_checking', deadline={'quick': 240, 'thorough': 2400}, hang_s=60,
     technique='bounded-exhaustive enumeration of all key-specification sequences (= sets in every definition order) x every exact key and prefix lookup, against a set model',
-    level_text='all sequences of <= 3 (quick) / <= 4 (thorough) key specifications from a pool of 14 with prefix-related long keys, abbreviations on and off: every definition compared with the set model (refuse iff short or long key taken), then every exact key and every prefix of every long key looked up on the real handler',
+    level_text='all sequences of <= 4 (quick) / <= 5 (thorough) key specifications from a pool of 14 with prefix-related long keys, abbreviations on and off: every definition compared with the set model (refuse iff short or long key taken), then every exact key and every prefix of every long key looked up on the real handler',
     level_note='trusts the 4-line set model; pool of 2 short and 4 long keys; one-character prefixes are outside (the library reads --x as the short key x)',
     rule='sequence of key specs (odometer, all orders) x written variant (dash count, order of short/long) x abbreviations; per accepted set one evaluation per exact key and per prefix; states = sequences, transitions = addArgument + evalArguments calls',
-    bound={'quick': 'sequences of <= 3 specifications', 'thorough': 'sequences of <= 4 specifications'},
+    bound={'quick': 'sequences of <= 4 specifications', 'thorough': 'sequences of <= 5 specifications'},
     assumptions=['every lookup uses a fresh handler with the same definitions (a handler is evaluated once)'])
 
 CHECKS['C06'] = dict(title='Multi-value destinations end up as the fold of all values given', engine='xenum',
@@ -205,17 +205,17 @@ CHECKS['C14'] = dict(title='A log message reaches exactly the destinations whose
     level_text='every single filter setting (18 level settings, all 63 class subsets in 3 casings) on a log and on a destination; every history of <= 3 (quick) / <= 4 (thorough) settings over 25 representative settings on a log and one of its destinations, with the duplicate policy (ignore/replace/exception) set at every position and a second log created before or after the policy is set; every one of the 36 (level, class) messages sent by id mask (single, both, with an unused bit) and by name; deliveries to the filtered destination, its sibling and the other log compared with the reference; level pre-check compared with the full filters',
     level_note='trusts the 15-line reference (value in effect per filter type under the policy; conjunction of filters); the undefined level/class are outside; a destination belongs to one log',
     rule='history = sequence of (target, setting) steps + policy + policy position + creation order (odometer); states = histories executed, transitions = message deliveries through Logging::log; non-trivial = setting sequences',
-    bound={'quick': 'part A complete; histories of 2 and 3 settings (<= 2 on the log, <= 1 on the destination)', 'thorough': 'histories up to 4 settings (<= 3 on the log, <= 2 on the destination; 4-step histories only with a duplicate filter type)'},
+    bound={'quick': 'part A complete; histories of 2 and 3 settings (<= 3 on the log, <= 1 on the destination); level histories of 4 settings with an A..B..A pattern', 'thorough': 'histories up to 4 settings (<= 3 on the log, <= 2 on the destination; 4-step histories only with a duplicate filter type); level histories of 4 and 5 settings'},
     assumptions=['levels and classes 1..6 (undefined excluded)', 'class lists are written without blanks around the commas'])
 
 CHECKS['C16'] = dict(title='Every delivered log message is rendered exactly as its format definition says', engine='xenum',
     harness=['harness/c16_format.cpp'], flags='asan', lib=True, level='model_checking', deadline={'quick': 240, 'thorough': 2400}, hang_s=60,
     technique='bounded-exhaustive enumeration of format definitions built through the real Creator (all field kinds x width x alignment x format string x separator settings, up to 3 items) x messages, and of attribute operation histories, rendered through the real stream destination and compared with an independent renderer',
-    level_text='every definition of 1 and 2 (thorough: 3, thinned options) items over 16 field kinds x widths {0,3,12} x alignment x format string {none, %H:%M, %d.%m.%Y} before every kind of field, separator {none, |, -} initially and changed before a later item; messages over all levels, classes, texts, 4 time stamps around the day boundary with sub-second parts; every attribute operation sequence of <= 4 (thorough 5) over global add/remove and scoped open/close on 2 names with 4 message-own attribute variants, message rendered after every operation',
+    level_text='every definition of 1, 2 and 3 (third level with thinned options) items over 16 field kinds x widths {0,3,12} x alignment x format string {none, %H:%M, %d.%m.%Y} before every kind of field, separator {none, |, -} initially and changed before a later item; messages over all levels, classes, texts, 4 time stamps around the day boundary with sub-second parts; every attribute operation sequence of <= 5 (thorough 6) over global add/remove and scoped open/close on 2 names with 4 message-own attribute variants, message rendered after every operation',
     level_note='trusts the 60-line reference renderer (own calendar arithmetic, setw-style padding); pid/thread id/function name are read back from the message object; TZ=UTC; removing a scoped attribute by hand is unspecified and skipped',
     rule='definition = item sequence with pending options + separator settings (odometer) x message; attribute history = operation sequence (DFS); states = definitions + attribute histories, transitions = messages rendered through LogDestStream; non-trivial = (first item[, second item]) cases',
-    bound={'quick': '1 item: 288 option sets x 3 separators x message product; 2 items: 288^2 x 8 separator settings x 3 messages; attribute operations <= 4',
-           'thorough': '2 items x 6 messages; 3 items: 128^3 thinned option sets x 6 separator settings; attribute operations <= 5'},
+    bound={'quick': '1 item: 288 option sets x 3 separators x message product; 2 items: 288^2 x 8 separator settings x 3 messages; 3 items: 128^3 thinned option sets x 6 separator settings; attribute operations <= 5',
+           'thorough': '2 items x 6 messages; 3 items: 288 x 128^2 option sets x 6 separator settings; attribute operations <= 6'},
     assumptions=['the automatic separator is placed between any two items, constant text included (as the in-tree creator test documents)', 'message-own attribute values are non-empty (an empty own value falls through to the global one by design)'])
 
 _SCHED = dict(engine='xsched', flags='tsanabi', level='model_checking', extra_sources=[dict(src='engine/sched/xsched.cpp', flags='rt')], extra_ldflags=['-ldl'], hang_s=120,
